@@ -286,6 +286,8 @@ class Interp:
                 callee = self.prog.functions.get(key)
                 if callee is None or callee.key in self._stack:
                     continue
+                if callee.name == "__init__":
+                    break                   # constructing an object: kept as a call term, the constructor is not interpreted
                 if self.follow is not None and not self.follow(callee):
                     continue
                 if self.follow is None and callee.module.name != fi.module.name:
@@ -295,7 +297,182 @@ class Interp:
                     return self.run(callee, args, kwargs, depth + 1)
                 finally:
                     self._stack.pop()
-        if isinstance(e.func, ast.Attribute) and not (isinstance(e.func.value, ast.Name) and e.func.value.id in ("np", "numpy", "pd", "math")):
+        root = e.func
+        while isinstance(root, ast.Attribute):
+            root = root.value
+        module_function = isinstance(root, ast.Name) and root.id not in env and root.id not in ("self", "cls")
+        if isinstance(e.func, ast.Attribute) and not module_function:
             recv = self.ev(e.func.value, env)
             return d.method(recv, e.func.attr, args, kwargs, e)
+        if hasattr(d, "call_default"):
+            return d.call_default(fn, args, kwargs, e)
         return d.unknown()
+
+
+# ----------------------------------------------------------------------------------------------------------------------
+# A generic symbolic-term domain: every value is a canonical nested tuple.  Wrappers that do not change the value
+# (np.asarray, .copy(), np.full_like(shape, v), float casts ...) are stripped, comparisons and commutative operations are
+# put into a canonical order, masked stores become ("where", mask, new, old).  Rules match on the term, so temporaries,
+# renames, helper functions and if/else restructurings of the analysed code do not matter.
+
+IDENTITY_FUNCS = {"np.asarray", "np.array", "np.asanyarray", "np.atleast_1d", "np.double", "np.float64", "float", "np.copy",
+                  "np.ascontiguousarray", "np.squeeze", "pd.Series", "np.ravel"}
+IDENTITY_METHODS = {"copy", "to_numpy", "astype", "ravel", "flatten", "squeeze", "to_series", "__array__"}
+IDENTITY_ATTRS = {"values", "array"}
+CMP_NAMES = {ast.Lt: "lt", ast.LtE: "le", ast.Eq: "eq", ast.NotEq: "ne", ast.Is: "is", ast.IsNot: "isnot", ast.In: "in",
+             ast.NotIn: "notin"}
+OP_NAMES = {ast.Add: "+", ast.Sub: "-", ast.Mult: "*", ast.Div: "/", ast.Pow: "**", ast.FloorDiv: "//", ast.Mod: "%",
+            ast.BitAnd: "&", ast.BitOr: "|", ast.BitXor: "^", ast.MatMult: "@"}
+
+
+class TermDomain(Domain):
+    def __init__(self, identity_funcs=(), identity_methods=()):
+        self.idf = IDENTITY_FUNCS | set(identity_funcs)
+        self.idm = IDENTITY_METHODS | set(identity_methods)
+
+    def unknown(self):
+        return ("?",)
+
+    def const(self, c):
+        return ("c", c)
+
+    def join(self, a, b):
+        if a == b:
+            return a
+        alts = set()
+        for x in (a, b):
+            if isinstance(x, tuple) and x and x[0] == "phi":
+                alts |= set(x[1])
+            else:
+                alts.add(x)
+        return ("phi", tuple(sorted(alts, key=repr)))
+
+    def binop(self, op, a, b, node):
+        name = OP_NAMES.get(type(op), type(op).__name__)
+        if name in ("+", "*", "&", "|") and repr(b) < repr(a):
+            a, b = b, a
+        return ("op", name, a, b)
+
+    def unaryop(self, op, a, node):
+        if isinstance(op, ast.USub) and isinstance(a, tuple) and a[0] == "c" and isinstance(a[1], (int, float)):
+            return ("c", -a[1])
+        if isinstance(op, ast.UAdd):
+            return a
+        return ("u", type(op).__name__.lower(), a)
+
+    def compare(self, node, vals):
+        if len(vals) != 2:
+            return ("cmpchain", tuple(type(o).__name__ for o in node.ops), tuple(vals))
+        a, b = vals
+        op = type(node.ops[0])
+        if op is ast.Gt:
+            return ("cmp", "lt", b, a)
+        if op is ast.GtE:
+            return ("cmp", "le", b, a)
+        name = CMP_NAMES.get(op, op.__name__)
+        if name in ("eq", "ne") and repr(b) < repr(a):
+            a, b = b, a
+        return ("cmp", name, a, b)
+
+    def boolop(self, node, vals):
+        return ("bool", "and" if isinstance(node.op, ast.And) else "or", tuple(vals))
+
+    def call(self, fn, args, kwargs, node, interp, env):
+        if fn in self.idf and args and (fn not in ("np.array", "np.asarray", "pd.Series") or
+                                        not (set(kwargs) - {"dtype", "copy", "name", "index"})):
+            if fn == "pd.Series" and "index" in kwargs:
+                return ("series", args[0], kwargs["index"])
+            return args[0]
+        if fn in ("np.full_like", "np.full") and len(args) >= 2:
+            return args[1]                              # a value spread over a shape is that value, element by element
+        if fn == "np.where" and len(args) == 3:
+            return ("where", args[0], args[1], args[2])
+        if fn in ("np.logical_not", "np.invert") and len(args) == 1:
+            return ("u", "not", args[0])
+        if fn in ("np.logical_and", "np.logical_or") and len(args) == 2:
+            a, b = sorted(args, key=repr)
+            return ("op", "&" if fn.endswith("and") else "|", a, b)
+        if fn in ("np.power", "np.float_power") and len(args) == 2:
+            return ("op", "**", args[0], args[1])
+        if fn in ("np.multiply", "np.add") and len(args) == 2:
+            a, b = sorted(args, key=repr)
+            return ("op", "*" if fn.endswith("multiply") else "+", a, b)
+        if fn in ("np.divide", "np.subtract") and len(args) == 2 and not kwargs:
+            return ("op", "/" if fn.endswith("divide") else "-", args[0], args[1])
+        return NotImplemented
+
+    def call_default(self, fn, args, kwargs, node):
+        return ("call", fn, tuple(args), tuple(sorted(kwargs.items(), key=lambda kv: kv[0])))
+
+    def method(self, recv, name, args, kwargs, node):
+        if name in self.idm:
+            return recv
+        return ("m", recv, name, tuple(args), tuple(sorted(kwargs.items(), key=lambda kv: kv[0])))
+
+    def attribute(self, recv, attr, node):
+        if attr in IDENTITY_ATTRS:
+            return recv
+        return ("attr", recv, attr)
+
+    def self_attr(self, attr, node):
+        return ("self", attr)
+
+    def subscript(self, recv, index, node):
+        if isinstance(index, (int, str)) and not isinstance(index, bool):
+            index = ("c", index)
+        if index is None:
+            index = ("slice", ast.unparse(node.slice) if isinstance(node, ast.Subscript) else "?")
+        return ("at", recv, index)
+
+    def store(self, old, index, value, node):
+        if isinstance(value, tuple) and len(value) == 3 and value[0] == "at" and value[2] == index:
+            value = value[1]                            # k[mask] = k_2[mask]  ==  where(mask, k_2, k)
+        return ("where", index, value, old)
+
+
+def term_walk(t):
+    """all sub-terms of a term (pre-order)"""
+    yield t
+    if isinstance(t, (tuple, Seq)):
+        for x in t:
+            if isinstance(x, (tuple, Seq)):
+                yield from term_walk(x)
+
+
+def term_alternatives(t):
+    """the alternatives of a joined value (returns of different paths), or the value itself"""
+    if isinstance(t, tuple) and t and t[0] == "phi":
+        return list(t[1])
+    return [t]
+
+
+def term_to_nf(t, atom):
+    """rational normal form of an arithmetic term; `atom(term)` names the leaves (returns a symbol name or None)"""
+    from fractions import Fraction
+    from .nf import RF, NFUnsupported
+    name = atom(t)
+    if name is not None:
+        return RF.sym(name)
+    if isinstance(t, tuple) and t and t[0] == "c" and isinstance(t[1], (int, float)) and not isinstance(t[1], bool):
+        return RF.const(Fraction(t[1]).limit_denominator(10 ** 12))
+    if isinstance(t, tuple) and len(t) == 4 and t[0] == "op":
+        a, b = term_to_nf(t[2], atom), None
+        if t[1] == "**":
+            if isinstance(t[3], tuple) and t[3][0] == "c" and isinstance(t[3][1], int) and 0 <= t[3][1] <= 8:
+                out = RF.const(1)
+                for _ in range(t[3][1]):
+                    out = out * a
+                return out
+            raise NFUnsupported("power %r" % (t[3],))
+        b = term_to_nf(t[3], atom)
+        if t[1] == "+":
+            return a + b
+        if t[1] == "-":
+            return a - b
+        if t[1] == "*":
+            return a * b
+        if t[1] == "/":
+            return a / b
+    if isinstance(t, tuple) and len(t) == 3 and t[0] == "u" and t[1] == "usub":
+        return RF.const(0) - term_to_nf(t[2], atom)
+    raise NFUnsupported("term %r" % (t,))
